@@ -487,19 +487,23 @@ func (a *Analyzer) createBalanceDiagnostic(tx *ast.Transaction, br *BalanceResul
 	}
 	sort.Strings(commodities)
 
-	var msg string
-	for _, commodity := range commodities {
-		if msg != "" {
-			msg += "; "
+	// built in one buffer: appending to a string copies it for every commodity
+	var msg strings.Builder
+	msg.WriteString("transaction does not balance: ")
+	for i, commodity := range commodities {
+		if i > 0 {
+			msg.WriteString("; ")
 		}
-		msg += fmt.Sprintf("%s off by %s", commodity, br.Differences[commodity].String())
+		msg.WriteString(commodity)
+		msg.WriteString(" off by ")
+		msg.WriteString(br.Differences[commodity].String())
 	}
 
 	return Diagnostic{
 		Range:    tx.Range,
 		Severity: SeverityError,
 		Code:     "UNBALANCED",
-		Message:  fmt.Sprintf("transaction does not balance: %s", msg),
+		Message:  msg.String(),
 	}
 }
 
